@@ -125,3 +125,9 @@ Definition orng_bad (cases : list (N * Z * list oop * list Z)) : list N :=
 Definition crng_bad (cases : list (N * Z * list cop * list Z)) : list N :=
   flat_map (fun c => let '(id, seed, ops, want) := c in
                      if list_eq_dec Z.eq_dec (crun (cnew seed) ops) want then [] else [id]) cases.
+
+(* executable form of the .NET generator's table invariant (entries within [-1, i32::MAX)); the
+   correspondence run reports the seeds whose freshly seeded table does not meet it *)
+Definition cinvb (s : crng) : bool := forallb (fun v => (-1 <=? v) && (v <? I32_MAX)) (carr s).
+Definition crng_noinv (cases : list (N * Z * list cop * list Z)) : list N :=
+  flat_map (fun c => let '(id, seed, _, _) := c in if cinvb (cnew seed) then [] else [id]) cases.
